@@ -29,6 +29,14 @@ type c08Result struct {
 	Ns       int64  `json:"ns"`
 }
 
+// labelFamily: the input family of a label ("mutant:swap@12" -> "mutant").
+func labelFamily(l string) string {
+	if i := strings.IndexAny(l, ":@ ("); i > 0 {
+		return l[:i]
+	}
+	return l
+}
+
 func init() {
 	// input: 1 byte kind ('s' source, 'e' expression) + text
 	vf.RegisterWorker("c08", func(in []byte) interface{} {
@@ -540,6 +548,7 @@ func init() {
 		distinct := map[string]bool{}
 		errClasses := map[string]int{}
 		okCount := 0
+		confirmed := 0
 		for i, r := range results {
 			c.Eval(1)
 			key := vf.Hash(string(inputs[i]))
@@ -550,8 +559,28 @@ func init() {
 			in := string(inputs[i][1:])
 			kind := string(inputs[i][:1])
 			if r.TimedOut {
-				c.Inconclusive("watchdog (" + labels[i] + ")")
-				continue
+				// decide on CPU time consumed by this input alone, not on the
+				// wall clock: 20 CPU-seconds for an input of a few KB
+				if confirmed >= 8 {
+					c.Inconclusive("watchdog, not re-run alone (8 inputs already were)")
+					continue
+				}
+				confirmed++
+				r2, cpuExceeded := vf.ConfirmAlone(c, "c08", inputs[i], 20, 5*time.Minute)
+				if cpuExceeded {
+					c.Count("inputs_rerun_alone_under_cpu_budget", 1)
+					c.Violate("C08:no-termination-within-cpu-budget:"+kind+":"+labelFamily(labels[i]),
+						fmt.Sprintf("processing input %q (%s, %d bytes) alone did not finish within 20 s of CPU time", truncate(in, 300), labels[i], len(in)),
+						map[string]interface{}{"kind": kind, "input": in, "label": labels[i]})
+					continue
+				}
+				if r2.TimedOut {
+					c.Inconclusive("watchdog (" + labels[i] + ")")
+					continue
+				}
+				c.Count("inputs_rerun_alone_under_cpu_budget", 1)
+				r = r2
+				r.Index = i
 			}
 			if r.Crashed {
 				msg, site := vf.CrashSite(r.Stderr)
